@@ -788,20 +788,7 @@ func checkBadStatus(r *Report, m *spModel, fn *ssa.Function, rule string) {
 						okCond = true
 					}
 				}
-				flows := false
-				for _, rf := range *mi.Referrers() {
-					switch y := rf.(type) {
-					case *ssa.Return:
-						flows = true
-					case *ssa.Store:
-						if fa, ok := y.Addr.(*ssa.FieldAddr); ok && fieldName(fa.X.Type(), fa.Field) == "PrivateErr" {
-							flows = true
-						}
-						if _, ok := y.Addr.(*ssa.Alloc); ok {
-							flows = true // spilled result
-						}
-					}
-				}
+				flows := errFlowsOut(p, mi, 0)
 				found = true
 				r.Check(okCond && flows && strings.HasSuffix(statusAP, "Status.StatusCode.Value"), rule, cons, p.InstrPos(in),
 					"ErrBadStatus{Status: "+statusAP+"} under status != Success", "ErrBadStatus is not built from the status value under the status-mismatch condition, or does not reach the returned error")
@@ -811,6 +798,49 @@ func checkBadStatus(r *Report, m *spModel, fn *ssa.Function, rule string) {
 	if !found {
 		r.Bad(rule, cons, p.Pos(fn.Pos()), "no ErrBadStatus value is produced: a non-Success status is reported as a generic error")
 	}
+}
+
+// errFlowsOut: the error value is returned, kept as the PrivateErr of the returned error, or handed to a module function or
+// local function literal that does one of these with its parameter.
+func errFlowsOut(p *Prog, v ssa.Value, depth int) bool {
+	if depth > 3 || v.Referrers() == nil {
+		return false
+	}
+	for _, rf := range *v.Referrers() {
+		switch y := rf.(type) {
+		case *ssa.Return:
+			return true
+		case *ssa.Store:
+			if y.Val != v {
+				continue
+			}
+			if fa, ok := y.Addr.(*ssa.FieldAddr); ok && fieldName(fa.X.Type(), fa.Field) == "PrivateErr" {
+				return true
+			}
+			if _, ok := y.Addr.(*ssa.Alloc); ok {
+				return true // spilled result
+			}
+		case *ssa.Phi:
+			if errFlowsOut(p, y, depth+1) {
+				return true
+			}
+		case *ssa.Call:
+			sc := y.Call.StaticCallee()
+			if sc == nil || len(sc.Blocks) == 0 || !p.InLibrary(sc) {
+				continue
+			}
+			shift := 0
+			if sc.Signature.Recv() != nil {
+				shift = 0 // receiver is Args[0] and Params[0] alike
+			}
+			for i, a := range y.Call.Args {
+				if a == v && i+shift < len(sc.Params) && errFlowsOut(p, sc.Params[i+shift], depth+1) {
+					return true
+				}
+			}
+		}
+	}
+	return false
 }
 
 // ------------------------------------------------------------------------------------------ C04
